@@ -164,8 +164,8 @@ def oracle_sequence(sid, lines, outs):
                     # (node, raft id) as a member
                     idm = dict(b["ids"])
                     want = ["%d:%d" % (n, idm.get(n, 0)) for n in bisr]
-                    uns = [n for n in bisr if not a(n)[1] or a(n)[0] == "x"
-                           or any(x not in (a(n)[0].split(",") if a(n)[0] not in ("-", "x") else []) for x in want)]
+                    uns = [n for n in bisr if not a(n)[1] or a(n)[0] in ("x", "n")
+                           or any(x not in (a(n)[0].split(",") if a(n)[0] not in ("-", "x", "n") else []) for x in want)]
                     if uns:
                         fail(cid, "add-when-unsynced: a node was added while replicas %s did not answer synced / full ready" % uns,
                              dict(kind=kind, before=b, written=w, answers={"%d/%d" % k: v for k, v in ans.items()}))
